@@ -266,3 +266,54 @@ func TestC05_Cache(t *testing.T) {
 		rec.Case(deltaRepeatHit || afterUpdate, map[string]any{"db": gen.BriefDB(cmds, 5), "queries": queries, "steps": steps}, labels...)
 	})
 }
+
+// TestC05_Overflow drives one cached database far past the capacity of its result cache
+// (twice around), then repeats earlier requests: recycled cache slots must never serve
+// another request's answer.
+func TestC05_Overflow(t *testing.T) {
+	rec := stat.For("C05")
+	rec.Rule("overflow histories: one cached database receives 2.2x its cache capacity in distinct requests (query x limit), interleaved with repeats of earlier requests in other letter cases; every answer is compared with an uncached search on an independent database.")
+	rapid.Check(t, func(t *rapid.T) {
+		cmds := c05DB(t, "cmds")
+		fresh := gen.Load(t, cmds)
+		cdb := database.NewCachedDatabase(gen.Load(t, cmds))
+		capacity := cdb.GetCacheStats()["search"].Capacity
+		if capacity <= 0 || capacity > 5000 {
+			t.Skip("unexpected cache capacity")
+		}
+		toks := gen.Tokens(cmds)
+		if len(toks) == 0 {
+			toks = []string{"find"}
+		}
+		total := capacity*2 + capacity/5
+		type req struct {
+			q string
+			o database.SearchOptions
+		}
+		var issued []req
+		check := func(r req, what string) {
+			got := rank(cdb.Database, cdb.SearchWithOptionsAndCache(r.q, r.o))
+			want := rank(fresh, fresh.SearchUniversal(r.q, r.o))
+			if !rankEq(got, want) {
+				t.Fatalf("%s: cached layer answered %s, uncached search answers %s (query %q limit %d, after %d requests, cache capacity %d)", what, rankStr(got), rankStr(want), r.q, r.o.Limit, len(issued), capacity)
+			}
+		}
+		stride := rapid.IntRange(40, 160).Draw(t, "repeat-every")
+		for i := 0; i < total; i++ {
+			// distinct requests: a database word plus a counter word, under varying limits
+			r := req{fmt.Sprintf("%s n%d", toks[i%len(toks)], i), database.SearchOptions{Limit: 1 + i%7, UseFuzzy: true, AllPlatforms: i%2 == 0}}
+			check(r, "first time")
+			issued = append(issued, r)
+			if i%stride == stride-1 {
+				back := issued[rapid.IntRange(0, len(issued)-1).Draw(t, "which")]
+				back.q = strings.ToUpper(back.q)
+				check(back, "repeat")
+			}
+		}
+		for i := 0; i < 40; i++ {
+			back := issued[rapid.IntRange(0, len(issued)-1).Draw(t, "tail")]
+			check(back, "repeat after overflow")
+		}
+		rec.Case(true, map[string]any{"overflow": true, "capacity": capacity, "requests": total, "db": gen.BriefDB(cmds, 3)}, "overflow")
+	})
+}
